@@ -123,9 +123,39 @@ def systematic_unions():
   return out
 
 
+HISTORY_STUBS = []
+for _b, _n in (('str', 'Token'), ('bytes', 'Blob'), ('ValueError', 'ParseError'), ('int', 'Count'), ('list', 'Items'), ('dict', 'Table')):
+  HISTORY_STUBS.append('from typing import Union\nclass %s(%s): ...\nc: Union[%s, %s]\ndef f(x: Union[%s, %s]) -> Union[%s, %s]: ...\n' % (_n, _b, _b, _n, _n, _b, _b, _n))
+  HISTORY_STUBS.append('from typing import Union\nclass %s: ...\nc: Union[%s, %s]\ndef f(x: Union[%s, %s]) -> Union[%s, %s]: ...\n' % (_n, _b, _n, _n, _b, _b, _n))
+  HISTORY_STUBS.append('from typing import Union\nclass Base%s: ...\nclass %s(Base%s): ...\nc: Union[Base%s, %s, %s]\n' % (_n, _n, _n, _n, _n, _b))
+
+
+def history_run(repo, order):
+  """Optimise the history stubs one after the other in THIS process; -> printed result per stub index."""
+  common.load_cfg(repo)
+  from pytype import config, load_pytd  # pylint: disable=g-import-not-at-top
+  from pytype.pyi import parser  # pylint: disable=g-import-not-at-top
+  from pytype.pytd import optimize, pytd_utils, visitors  # pylint: disable=g-import-not-at-top
+  loader = load_pytd.Loader(config.Options.create(python_version=PYVER))
+  deps = pytd_utils.Concat(loader.builtins, loader.typing)
+  out = {}
+  for k in order:
+    src = HISTORY_STUBS[k]
+    # resolved the way pytype.io resolves an inferred stub: module-qualified local names, builtins looked up
+    ast = parser.parse_string(src, name='m', options=parser.PyiOptions(python_version=PYVER))
+    ast = ast.Visit(visitors.LookupBuiltins(loader.builtins))
+    ast = ast.Visit(visitors.LookupLocalTypes())
+    opt = optimize.Optimize(ast, deps, lossy=False, use_abcs=False, max_union=7, remove_mutable=False)
+    out[str(k)] = pytd_utils.Print(opt)
+  return out
+
+
 def main():
   mode, repo = sys.argv[1], sys.argv[2]
   payload = json.loads(sys.stdin.read() or '{}')
+  if mode == 'history':
+    print(json.dumps(history_run(repo, payload['order'])))
+    return
   tier = payload.get('tier', 'quick')
   rnd = random.Random(payload.get('seed', 0))
   common.load_cfg(repo)
@@ -275,6 +305,27 @@ def main():
   check_local_classes('from typing import Union\nclass A: ...\nclass Inner: ...\nclass Outer:\n  class Nested(A): ...\nc: Union[Inner, A]\n',
                       'c', ['Inner'], 'other')
   check_local_classes('from typing import Union\nclass A: ...\nclass B: ...\nclass C(A): ...\nc: Union[B, C, A]\n', 'c', ['B'], 'other')
+
+  # the result of optimising a stub must not depend on which stubs were optimised earlier in the process:
+  # the same stubs in forward order (one fresh process) and in reverse order (another one)
+  import subprocess  # pylint: disable=g-import-not-at-top
+  runs = []
+  for order in (list(range(len(HISTORY_STUBS))), list(reversed(range(len(HISTORY_STUBS))))):
+    p = subprocess.run(['/venv/bin/python', '-B', os.path.abspath(__file__), 'history', repo], input=json.dumps(dict(order=order)),
+                       capture_output=True, text=True, env=dict(os.environ, PYTHONPATH=repo, PYTHONDONTWRITEBYTECODE='1'), cwd='/')
+    try:
+      runs.append(json.loads(p.stdout.strip().splitlines()[-1]))
+    except Exception:  # pylint: disable=broad-except
+      viol(kind='crash', what='history run failed: %s' % (p.stderr or p.stdout)[-400:], src='', setting={})
+      runs.append({})
+  nhist = 0
+  if len(runs) == 2:
+    for k in sorted(set(runs[0]) & set(runs[1]), key=int):
+      nhist += 1
+      if runs[0][k] != runs[1][k]:
+        viol(kind='history-dependent', cause='other',
+             what='Optimize of stub #%s depends on what was optimised earlier in the process: after stubs #0..#%d it gives %r, after stubs #%d..#%s it gives %r' % (
+                 k, int(k) - 1, runs[0][k], len(HISTORY_STUBS) - 1, int(k) + 1, runs[1][k]), src=HISTORY_STUBS[int(k)], setting={})
 
   HDR = 'from typing import Any, Callable, List, Tuple, Union\n'
   # fixed regression inputs (known finding F8 is replayed on every run)
